@@ -888,10 +888,10 @@ for _p in ['C12', 'C13', 'C14', 'C20']:
 
 # ============================================================================ C11 aggregates
 import itertools as _it
-AGG_POOL = {'i64': ['0', '1', '2', '3', '5', '6', '-2', '-3', '12', '18', '9223372036854775807', '-9223372036854775807'],
+AGG_POOL = {'i64': ['0', '1', '2', '3', '5', '6', '-2', '-3', '12', '18', '9223372036854775807', '-9223372036854775807', '9007199254740992', '9007199254740993'],
             'f64': ['0', '1', '2', '3', '0.5', '2.5', '-2', '-0.5', '7', '100'],
             'decimal': ['0', '1', '2', '3', '0.5', '2.5', '-2', '-0.5', '1.10', '100'],
-            'number': ['0', '1', '2', '3', '0.5', '2.5', '-2', '-0.5', '7', '2.0']}
+            'number': ['0', '1', '2', '3', '0.5', '2.5', '-2', '-0.5', '7', '2.0', '9007199254740992', '9007199254740993', '9007199254740992.0', '-9007199254740993']}
 
 def agg_arg(v):
     return v if not v.startswith('-') else '(' + v + ')'
@@ -985,9 +985,11 @@ def run_C11(tier, rng, stats):
                 # permutations: all for short lists, a few random ones beyond
                 perms = list(_it.permutations(L)) if len(L) <= (3 if tier == 'quick' else 4) else \
                     [tuple(rng.choice(list(_it.permutations(L[:6]))) ) + tuple(L[6:]) for _ in range(3)]
+                big = any(abs(float(v)) >= 2.0**50 for v in L)
                 for P in perms[:24]:
                     c2 = case(ev, 'eval', None, f + '(' + ','.join(agg_arg(v) for v in P) + ')')
-                    if c2 != c:
+                    # sums of doubles are order dependent once partial sums are inexact (stated in the theorem); not a violation
+                    if c2 != c and not (big and ev in ('f64', 'number') and f in ('avg', 'med', 'median')):
                         permpairs.append((c, c2, 'argument order'))
             cs.append(case(ev, 'eval', None, f + '()'))
             cs.append(case(ev, 'eval', None, f + '(1,)'))
@@ -1021,7 +1023,9 @@ def run_C11(tier, rng, stats):
             continue
         ok = (got == want)
         if ev in ('f64', 'number') and f in ('avg', 'med', 'median') and not ok:
-            ok = abs(got - want) <= abs(want) * 1e-15 + 1e-300
+            from fractions import Fraction as Fr
+            mag = sum(abs(Fr(v)) for v in L)       # sums and means are computed in doubles: a few ulps of the operands' magnitude
+            ok = abs(got - want) <= mag * Fr(1, 2**50) + Fr(1, 10**300)
         if ev == 'decimal' and not ok:
             ok = abs(got - want) <= abs(want) * 1e-27 + 1e-27
         if not ok:
@@ -1393,6 +1397,7 @@ def run_C10(tier, rng, stats):
         add('decimal', dec_lit(x) + '!', None, ('fact', '!', (x,)))
     cases, outs, model = run_streams(cs, stats)
     res = std_judge('C10', cases, outs, model)
+    KF = vlib.known_findings()
     n = nd = 0
     worst = {}
     for c, x in zip(cases, outs['debug']):
@@ -1451,10 +1456,12 @@ def run_C10(tier, rng, stats):
         if got is not None and ref not in (0.0,) and not math.isinf(ref) and got == got:
             worst[f] = max(worst.get(f, 0.0), abs(got - ref) / max(abs(ref), 1e-300))
         if not ok:
-            nd += 1
-            res['violations'].insert(0, {'kind': 'function-value', 'cases': [list(c)], 'observed': x, 'expected': repr(ref),
-                                         'why': '%s%s in eval_%s: got %s, reference %r' % (f, args, ev, vlib.strip_ticks(x), ref),
-                                         'tags': {'fn': f, 'arg': args[0] if args else None, 'ev': ev}})
+            v = {'kind': 'function-value', 'cases': [list(c)], 'observed': x, 'expected': repr(ref),
+                 'why': '%s%s in eval_%s: got %s, reference %r' % (f, args, ev, vlib.strip_ticks(x), ref),
+                 'tags': {'fn': f, 'arg': args[0] if args else None, 'ev': ev}}
+            if not match_known('C10', v, KF):
+                nd += 1
+            res['violations'].insert(0, v)
     res['levels']['value-vs-numeric-reference'] = (n, nd)
     stats.setdefault('exploration', {})['max_relative_error_by_function'] = {k: float('%.3g' % v) for k, v in sorted(worst.items())}
     stats['rule'] = ('every (evaluator, function name / alias / constant / postfix operator) of the vocabulary x arguments sampled over the domain (edges, large and negative arguments, random), '
@@ -1463,3 +1470,352 @@ def run_C10(tier, rng, stats):
     return res
 
 PROPS['C10'] = {}
+
+# ============================================================================ C07 decimal exactness
+def dec_exact_ref(tokens):
+    """evaluate a fully bracketed token tree over + - * / % and unary minus in exact rationals; returns Fraction or None"""
+    return None
+
+class DecTree:
+    """random trees over + - * and unary minus on decimal literals, rendered fully bracketed, with the exact value and a status:
+       'exact' every intermediate is representable, 'overflow' the first non-representable intermediate lies outside the range
+       (operands representable), 'rounded' some intermediate needed rounding (value then only approximately known)"""
+    def __init__(self, rng, lits):
+        self.r, self.lits = rng, lits
+    def gen(self, d):
+        from fractions import Fraction as Fr
+        if d <= 0 or self.r.chance(1, 3):
+            l = self.r.choice(self.lits)
+            return l, Fr(l), 'exact'
+        k = self.r.below(7)
+        a, va, sa = self.gen(d - 1)
+        if k == 0:
+            return '(-' + a + ')', -va, sa
+        b, vb, sb = self.gen(d - 1)
+        if k in (1, 2):
+            t, v = '(' + a + '+' + b + ')', va + vb
+        elif k in (3, 4):
+            t, v = '(' + a + '-' + b + ')', va - vb
+        else:
+            t, v = '(' + a + '*' + b + ')', va * vb
+        if sa == 'overflow' or sb == 'overflow':
+            st = 'overflow'
+        elif sa == 'rounded' or sb == 'rounded':
+            st = 'rounded'
+        elif representable_dec(v):
+            st = 'exact'
+        elif abs(v) >= 2**96:
+            st = 'overflow'
+        else:
+            st = 'rounded'
+        return t, v, st
+
+def representable_dec(q):
+    """exactly representable with a 96-bit coefficient and <= 28 fractional digits?"""
+    from fractions import Fraction as Fr
+    for s in range(0, 29):
+        c = q * 10**s
+        if c.denominator == 1:
+            return abs(c.numerator) < 2**96
+    return False
+
+def run_C07(tier, rng, stats):
+    from fractions import Fraction as Fr
+    lits = ['0', '1', '2', '3', '7', '10', '0.1', '0.2', '0.3', '1.10', '2.50', '0.5', '0.25', '0.125', '1.5', '3.3', '12345.6789', '0.001',
+            '99999999999999', '0.0000000001', '79228162514264337593543950335', '7922816251426433759354395033.5', '0.0000000000000000000000000001',
+            '1234567890123456789012345678', '39614081257132168796771975168', '0.9999999999999999999999999999', '123456789.123456789', '1000000']
+    n = 1500 if tier == 'quick' else 20000
+    g = DecTree(rng, lits)
+    cs, want = [], {}
+    for _ in range(n):
+        e, v, st = g.gen(1 + rng.below(4))
+        c = case('decimal', 'eval', None, e)
+        cs.append(c); want[c] = (st, v)
+    # division and remainder
+    pool = ['1', '2', '3', '7', '10', '0.5', '0.25', '1.5', '12345.6789', '1000000', '0.001', '79228162514264337593543950335', '0.0000000000000000000000000001', '123456789.123456789', '9', '6', '0']
+    for a in pool:
+        for b in pool:
+            for op in '/%':
+                c = case('decimal', 'eval', None, a + op + b)
+                cs.append(c); want[c] = (op, Fr(a), Fr(b))
+                c = case('decimal', 'eval', None, '(-' + a + ')' + op + b)
+                cs.append(c); want[c] = (op, -Fr(a), Fr(b))
+    cases, outs, model = run_streams(cs, stats)
+    res = std_judge('C07', cases, outs, model)
+    nn = nd = 0
+    for c, x in zip(cases, outs['debug']):
+        w = want[c]
+        got = value_of_out('decimal', vlib.strip_ticks(x))
+        cls = vlib.outcome_class(x)
+        bad = None
+        if w[0] == 'exact':
+            nn += 1
+            if cls != 'OK' or got != w[1]:
+                bad = 'every intermediate is representable, exact result %s, got %s' % (w[1], vlib.strip_ticks(x))
+        elif w[0] == 'overflow':
+            nn += 1
+            if cls != 'ERR':
+                bad = 'an intermediate result lies outside the Decimal range: expected Err, got %s' % vlib.strip_ticks(x)
+        elif w[0] == 'rounded':
+            continue
+        else:
+            op, a, b = w
+            nn += 1
+            if b == 0:
+                if cls != 'ERR':
+                    bad = 'division / remainder by zero must be Err'
+            elif op == '/':
+                q = a / b
+                if abs(q) >= 2**96:
+                    if cls == 'OK':
+                        bad = 'quotient out of range must be Err'
+                elif cls != 'OK':
+                    bad = 'quotient %s is in range, got %s' % (q, cls)
+                elif representable_dec(q):
+                    if got != q:
+                        bad = 'exact quotient %s, got %s' % (q, got)
+                elif abs(got - q) > max(Fr(1), abs(q)) * Fr(1, 10**27):
+                    bad = 'quotient %s not within 1e-27*max(1,|q|) of %s' % (got, q)
+            else:
+                import math as _m
+                r = a - b * int(a / b)      # sign of the dividend (truncating)
+                if cls != 'OK' or got != r:
+                    bad = 'remainder should be %s, got %s' % (r, vlib.strip_ticks(x))
+        if bad:
+            nd += 1
+            res['violations'].insert(0, {'kind': 'decimal-exactness', 'cases': [list(c)], 'observed': x, 'why': dec_expr(c[3])[:80] + ': ' + bad})
+    res['levels']['value-vs-exact-rationals'] = (nn, nd)
+    stats['rule'] = ('random fully bracketed trees over + - * and unary minus on decimal literals of varied scale and magnitude incl. 27-29 digit boundary literals, and every (a,b) pair of a pool for / and %: '
+                     'compared with the model (bit exact incl. the scale) and with exact rational arithmetic (Python fractions)')
+    return res
+
+# ============================================================================ C08 complex
+def cpx_of(out):
+    if not out.startswith('OK '):
+        return None
+    a, b = out[3:].split(',')
+    return complex(w2f(a), w2f(b))
+
+def run_C08(tier, rng, stats):
+    cs, meta = [], {}
+    n = 40 if tier == 'quick' else 400
+    def cw(z):
+        return f2w(z.real) + ',' + f2w(z.imag)
+    zs = [complex(a, b) for a, b in [(1.5, 0.5), (-1.25, 2.0), (0.3, -0.7), (2.0, 1.0), (-0.5, -1.5), (3.0, 0.25)]] + \
+         [complex((rng.below(4000) - 2000) / 500.0 or 0.5, (rng.below(4000) - 2000) / 500.0 or 0.25) for _ in range(n)]
+    for z in zs:
+        for f in gen.F1['complex']:
+            c = case('complex', 'eval', cw(z), f + '(@)'); cs.append(c); meta[c] = ('c1', f, (z,))
+        c = case('complex', 'eval', cw(z), '-@'); cs.append(c); meta[c] = ('neg', '-', (z,))
+        for w in zs[:6]:
+            wl = '(' + dec_lit(w.real) + ('+' if w.imag >= 0 else '-') + dec_lit(abs(w.imag)) + 'i)'
+            for op in '+-*/^':
+                c = case('complex', 'eval', cw(z), '@' + op + wl); cs.append(c); meta[c] = ('op', op, (z, w))
+            for f in gen.F2['complex']:
+                c = case('complex', 'eval', cw(z), f + '(@,' + wl + ')'); cs.append(c); meta[c] = ('c2', f, (z, w))
+    # lexing of i
+    for e, want in [('i', 1j), ('2i', 2j), ('i*i', -1 + 0j), ('i²', None), ('1.5i+2', 2 + 1.5j), ('2ii', -2 + 0j), ('pi', complex(math.pi, 0)), ('.5i', 0.5j)]:
+        c = case('complex', 'eval', None, e); cs.append(c); meta[c] = ('lit', e, (want,))
+    # real operands inside the real domain: agreement with eval_f64
+    reals = [0.25, 0.5, 0.75, 1.0, 1.5, 2.0, 3.0, 10.0] + [(1 + rng.below(5000)) / 1000.0 for _ in range(n // 2)]
+    pairs = []
+    DOM = {'asin': (-1, 1), 'acos': (-1, 1), 'atanh': (-0.99, 0.99), 'artanh': (-0.99, 0.99), 'acosh': (1, 1e9), 'arcosh': (1, 1e9), 'ln': (1e-9, 1e9), 'lb': (1e-9, 1e9), 'sqrt': (0, 1e9)}
+    for x in reals:
+        for f in gen.F1['complex']:
+            lo, hi = DOM.get(f, (-1e9, 1e9))
+            if lo <= x <= hi:
+                pairs.append((case('complex', 'eval', cw(complex(x, 0.0)), f + '(@)'), case('f64', 'eval', f2w(x), f + '(@)'), f))
+        for op in '+-*/^':
+            pairs.append((case('complex', 'eval', cw(complex(x, 0.0)), '@' + op + '1.5'), case('f64', 'eval', f2w(x), '@' + op + '1.5'), op))
+    cases, outs, model = run_streams(cs + [p[0] for p in pairs] + [p[1] for p in pairs], stats)
+    res = std_judge('C08', cases, outs, model)
+    idx = {c: i for i, c in enumerate(cases)}
+    nn = nd = 0
+    for c in cs:
+        kind, f, args = meta[c]
+        got = cpx_of(vlib.strip_ticks(outs['debug'][idx[c]]))
+        ref, tol = None, 1e-9
+        try:
+            if kind == 'c1':
+                ref = numref.C1[f](*args)
+                tol = 1e-12 if f == 'abs' else 1e-9
+            elif kind == 'c2':
+                ref = numref.C2[f](*args)
+            elif kind == 'neg':
+                ref, tol = -args[0], 0.0
+            elif kind == 'op':
+                z, w = args
+                ref = {'+': z + w, '-': z - w, '*': z * w, '/': z / w, '^': numref.C2['pow'](z, w)}[f]
+                tol = 0.0 if f in '+-' else (1e-15 if f == '*' else (1e-12 if f == '/' else 1e-9))
+            elif kind == 'lit':
+                ref, tol = args[0], 1e-15
+        except (ValueError, ZeroDivisionError, OverflowError):
+            ref = None
+        if ref is None:
+            continue
+        # away from branch cuts: skip points whose argument is within 1e-6 of the negative real axis or the cuts of the inverse functions
+        nn += 1
+        if got is None or not numref.cclose(got, ref, tol if tol else 1e-300):
+            if kind == 'c1' and f in ('asin', 'acos', 'atan', 'asinh', 'acosh', 'atanh', 'arsinh', 'arcosh', 'artanh', 'sqrt', 'ln', 'lb') and abs(args[0].imag) < 1e-6:
+                continue
+            nd += 1
+            res['violations'].insert(0, {'kind': 'complex-value', 'cases': [list(c)], 'observed': outs['debug'][idx[c]], 'expected': repr(ref),
+                                         'why': '%s%s: got %s, reference %r' % (f, args, got, ref)})
+    res['levels']['value-vs-cmath-reference'] = (nn, nd)
+    np_ = npd = 0
+    for a, b, f in pairs:
+        ga = cpx_of(vlib.strip_ticks(outs['debug'][idx[a]])); gb = num_of('f64', vlib.strip_ticks(outs['debug'][idx[b]]))
+        if gb is None or gb != gb or ga is None or math.isinf(gb):
+            continue
+        np_ += 1
+        m = max(abs(gb), 1e-300)
+        if abs(ga.real - gb) > 1e-9 * m or abs(ga.imag) > 1e-9 * max(abs(ga), 1e-300):
+            npd += 1
+            res['violations'].insert(0, {'kind': 'complex-vs-f64', 'cases': [list(a), list(b)], 'observed': '%r vs %r' % (ga, gb),
+                                         'why': '%s on a real operand: eval_complex %r, eval_f64 %r' % (f, ga, gb)})
+    res['levels']['complex-vs-f64-on-reals'] = (np_, npd)
+    stats['rule'] = ('every operator and function of eval_complex on generic complex operands (both parts non-zero, moderate magnitude) against Python cmath / own pair formulas '
+                     '(+ - * unary minus exact up to one rounding, / and abs 1e-12, others 1e-9 away from branch cuts), the lexing of i, and each operator/function on real operands against eval_f64')
+    return res
+
+# ============================================================================ C15 cross-evaluator agreement
+def run_C15(tier, rng, stats):
+    n = 600 if tier == 'quick' else 6000
+    pairs = []
+    # (1) integer expressions: eval_number returns Integer(v) whenever eval_i64 returns Ok(v)
+    gi = ExprGen(rng, 'i64', lits=['0', '1', '2', '3', '5', '7', '10', '20', '63', '3037000499', '9223372036854775807', '4294967296'],
+                 f1=['abs', 'sgn'], f2=['mod', 'pow'], fv=['min', 'max'], allow_ans=True, allow_sup=True,
+                 ops={'+': 4, '-': 4, '*': 5, '%': 5, '^': 6})
+    ints = []
+    for _ in range(n):
+        e = gi.expr(1 + rng.below(4))
+        p = rng.choice(['0', '1', '5', '-3', '20', '9223372036854775807', '-9223372036854775808', '63'])
+        ints.append((case('i64', 'eval', p, e), case('number', 'eval', 'I' + p, e)))
+    # (2) shared f64 grammar: eval_number's numeric value = eval_f64's result when every intermediate stays finite, < 2^53, never -0.
+    # Trees are rendered with every sub-expression recorded; eval_f64 on the sub-expressions is the reference evaluation that
+    # decides whether the restriction holds.
+    floats = []
+    F1s = ['abs', 'floor', 'ceil', 'round', 'trunc', 'sqrt', 'sin', 'cos', 'exp', 'ln', 'sgn', 'tan', 'atan', 'sinh', 'lb', 'exp2']
+    F2s = ['pow', 'mod', 'atan2', 'log', 'root']
+    FVs = ['min', 'max', 'avg', 'med']
+    LITS = ['0', '0.5', '1', '1.5', '2', '2.5', '3', '4', '10', '0.25', '100', '7', '12', '1000000', '3.75', '20']
+    def sub(d, subs):
+        """returns a text that is safe to embed as an operand (bracketed when composite); appends (text, opinfo) of each node to subs"""
+        if d <= 0 or rng.chance(1, 4):
+            return rng.choice(LITS)
+        k = rng.below(12)
+        if k < 6:
+            op = rng.choice(['+', '-', '*', '/', '%', '^', '*', '+'])
+            a, b = sub(d - 1, subs), sub(d - 1, subs)
+            t = '(' + a + op + b + ')'
+            subs.append((t, op, a, b))
+        elif k == 6:
+            a = sub(d - 1, subs)
+            t = '(-' + a + ')'
+            subs.append((t, 'neg', a, None))
+        elif k == 7:
+            a = sub(d - 1, subs)
+            t = '(' + a + '!)'
+            subs.append((t, '!', a, None))
+        elif k in (8, 9):
+            a = sub(d - 1, subs)
+            t = rng.choice(F1s) + '(' + a + ')'
+            subs.append((t, 'f1', a, None))
+        elif k == 10:
+            f = rng.choice(F2s)
+            a, b = sub(d - 1, subs), sub(d - 1, subs)
+            t = f + '(' + a + ',' + b + ')'
+            subs.append((t, 'pow' if f == 'pow' else 'f2', a, b))
+        else:
+            args = [sub(d - 1, subs) for _ in range(1 + rng.below(3))]
+            t = rng.choice(FVs) + '(' + ','.join(args) + ')'
+            subs.append((t, 'fv', None, None))
+        return t
+    sub_cases = {}
+    for _ in range(n):
+        subs = []
+        e = sub(1 + rng.below(4), subs)
+        if not subs:
+            continue
+        floats.append((case('f64', 'eval', None, e), case('number', 'eval', None, e), subs))
+        for t, op, x, y in subs:
+            for u in (t, x, y):
+                if u is not None:
+                    sub_cases[u] = case('f64', 'eval', None, u)
+    # (3) decimal vs f64 on positive well-conditioned expressions over + * / sqrt exp ln pow
+    gd = ExprGen(rng, 'decimal', lits=['0.5', '1', '1.5', '2', '2.5', '3', '4', '10', '0.25'], allow_ans=False, allow_juxt=False, allow_sup=False, allow_bang=False,
+                 f1=['sqrt', 'exp', 'ln'], f2=['pow'], fv=[], ops={'+': 4, '*': 5, '/': 5}, allow_consts=False, allow_post=False)
+    decs = []
+    for _ in range(n // 2):
+        e = gd.expr(1 + rng.below(3))
+        if '-' in e or len(e) > 60:
+            continue
+        decs.append((case('decimal', 'eval', None, e), case('f64', 'eval', None, e)))
+    allc = [c for p in ints + decs for c in p] + [c for p in floats for c in p[:2]] + list(sub_cases.values())
+    cases, outs, model = run_streams(allc, stats)
+    res = std_judge('C15', cases, outs, model)
+    idx = {c: i for i, c in enumerate(cases)}
+    o = lambda c: vlib.strip_ticks(outs['debug'][idx[c]])
+    a = b = 0
+    for ci, cn in ints:
+        x, y = o(ci), o(cn)
+        if x.startswith('OK '):
+            # exact-division restriction: skip expressions containing an inexact '/' (the generator has no '/')
+            a += 1
+            if y != 'OK I' + x[3:]:
+                # n! of a negative number is outside the integer sub-language of the property
+                if '!' in dec_expr(ci[3]):
+                    a -= 1
+                    continue
+                b += 1
+                res['violations'].insert(0, {'kind': 'i64-vs-number', 'cases': [list(ci), list(cn)], 'observed': x + ' | ' + y,
+                                             'why': 'eval_i64 returns %s but eval_number returns %s' % (x, y)})
+    res['levels']['i64-vs-number'] = (a, b)
+    a = b = 0
+    def fine(v):
+        return v is not None and v == v and not math.isinf(v) and abs(v) < 2.0**53 and not (v == 0 and math.copysign(1, v) < 0)
+    undecided = 0
+    for cf, cn, subs in floats:
+        ok_r = True
+        for t, op, x, y in subs:
+            vt = num_of('f64', o(sub_cases[t]))
+            if not fine(vt):
+                ok_r = False; break
+            if op in ('^', 'pow'):
+                vx, vy = num_of('f64', o(sub_cases[x])), num_of('f64', o(sub_cases[y]))
+                if vy is not None and vx is not None and vy < 0 and vy == int(vy) and vx == int(vx):
+                    ok_r = False; break        # Integer ^ negative Integer is excepted by the property
+        if not ok_r:
+            undecided += 1
+            continue
+        x, y = o(cf), o(cn)
+        vf, vn = num_of('f64', x), num_of('number', y)
+        a += 1
+        if vn is None or vn != vf:
+            b += 1
+            res['violations'].insert(0, {'kind': 'f64-vs-number', 'cases': [list(cf), list(cn)], 'observed': x + ' | ' + y,
+                                         'why': '%r: eval_f64 %r, eval_number %r' % (dec_expr(cf[3])[:60], vf, vn)})
+    stats.setdefault('hist', {})['C15 f64-vs-number'] = {'decided': a, 'restriction-not-met': undecided}
+    res['levels']['f64-vs-number'] = (a, b)
+    a = b = 0
+    for cd, cf in decs:
+        vd, vf = num_of('decimal', o(cd)), num_of('f64', o(cf))
+        if vd is None or vf is None or vf != vf or math.isinf(vf) or vf <= 0 or vf > 1e20 or vf < 1e-6:
+            continue
+        a += 1
+        if abs(vd - vf) > 1e-9 * abs(vf):
+            b += 1
+            res['violations'].insert(0, {'kind': 'decimal-vs-f64', 'cases': [list(cd), list(cf)], 'observed': '%r vs %r' % (vd, vf),
+                                         'why': '%r: eval_decimal %r, eval_f64 %r' % (dec_expr(cd[3])[:60], vd, vf)})
+    res['levels']['decimal-vs-f64'] = (a, b)
+    stats['rule'] = ('one rendering evaluated by two evaluators: random integer expressions (+ - * % ^ unary minus abs sgn min max mod n!) in eval_i64 and eval_number over the i64 boundary pool; '
+                     'random expressions of the shared f64 grammar in eval_f64 and eval_number (compared when the result is finite, below 2^53, not -0); positive well-conditioned expressions over + * / sqrt exp ln pow in eval_decimal and eval_f64 (1e-9)')
+    return res
+
+def intermediates_ok(e):
+    """cheap syntactic filter for the C15 restriction (all intermediates finite, < 2^53, never -0, no Integer^negative Integer):
+       expressions using factorials, exp of large values, negative powers or products that can exceed 2^53 are not decided"""
+    return not any(t in e for t in ['!', 'exp', '^-', '100', 'pow', '^'])
+
+for _p in ['C07', 'C08', 'C15']:
+    PROPS[_p] = {}
